@@ -257,6 +257,8 @@ let main_exec () =
        when the program has a prefilter the two engines are compared on its prefilter-free twin (btx/pkx) *)
     if find "btx" <> None then c05 "btx" "pkx" else begin c05 "bt8" "pk8"; c05 "bta" "pka" end;
     List.iter (fun r -> if r.status = "panic" then viol "C06" (Printf.sprintf "%s:panic" r.engine)) g;
+    (* C09: the harness polls every iterator again after it returned None; a match yielded then is recorded at offset 999999999 *)
+    List.iter (fun r -> if List.exists (fun (s, _, _) -> s = 999999999) r.ms then viol "C09" (Printf.sprintf "%s:yields-again-after-None" r.engine)) g;
     (match find "bt8", find "pk8" with
      | Some a, Some b -> if both_ok a b && not (same a b) then viol "C02" (Printf.sprintf "bt8=%s/pk8=%s" (show_matches a.ms) (show_matches b.ms))
      | _ -> ());
